@@ -174,7 +174,7 @@ def cases(rng, tier):
     if tier == "quick":
         nmax, lim, nprog, nsample = 6, 9, 250, 600
     elif tier == "thorough":
-        nmax, lim, nprog, nsample = 12, 16, 5000, 6000
+        nmax, lim, nprog, nsample = 12, 16, 20000, 6000
     else:  # search: oracle only
         nmax, lim, nprog, nsample = 8, 10, 3000, 2000
     # builder programs first: in `search` mode the caller stops at the first failure
@@ -541,7 +541,11 @@ def _handle_obs(h, k):
 def run_impl(spec):
     k = spec["k"]
     if k == "get":
-        return _get_obs(_eval_get(_handle(spec["n"], spec["via"]), spec["x"]))
+        try:
+            hd = _handle(spec["n"], spec["via"])
+        except Exception as e:  # noqa: BLE001
+            return "handle-construction-raised " + type(e).__name__
+        return _get_obs(_eval_get(hd, spec["x"]))
     if k == "pyslice":
         return dumps(list(range(spec["n"]))[spec["s"] : spec["e"] : spec["st"]])
     if k == "pyitem":
@@ -572,7 +576,10 @@ def payload(spec):
     k = spec["k"]
     o = lambda v: A("none") if v is None else v  # noqa: E731
     if k == "get":
-        hd = _handle(spec["n"], spec["via"])
+        try:
+            hd = _handle(spec["n"], spec["via"])
+        except Exception:  # noqa: BLE001
+            return None
         idx = hd.to_node().idx
         x = spec["x"]
         if x[0] == "int":
@@ -614,7 +621,11 @@ def _is_out(p, idx, off):
 
 def _oracle_get(spec):
     n, x = spec["n"], spec["x"]
-    hd = _handle(n, spec["via"])
+    try:
+        hd = _handle(n, spec["via"])
+    except Exception as e:  # noqa: BLE001
+        site = "Hugr.add_node" if spec["via"] == "graph" else "Dfg.set_outputs"
+        return [Failure(site, "handle-construction-raised", f"n={n}: {type(e).__name__}: {e}")]
     idx = hd.to_node().idx
     res = _eval_get(hd, x)
     kind = x[0]
